@@ -26,7 +26,7 @@ RULE = ("correspondence: mock-kernel traces of the real _solve (incl. accepted /
 
 
 def correspondence(tier, rng):
-    n = 40 if tier == "quick" else 300
+    n = 400 if tier == "quick" else 3000
     cases, dist = harness_acd.make_cases(rng, n)
     r1 = tvlib.run_cases(cases, ["Skel.AndersonCD", "Skel.MockACD"], "C03a", shard=12, jobs=16)
     kc = kernels.gen_cd_kernels(rng, 60 if tier == "quick" else 300)
